@@ -117,6 +117,8 @@ type Config struct {
 	CachePersisted      bool    `json:"cachePersisted,omitempty"`
 	MaxPreMergerBatches int     `json:"maxPreMerger,omitempty"`
 	MergeOp             bool    `json:"mergeOp,omitempty"`
+	MaxDirtyOps         uint64  `json:"maxDirtyOps,omitempty"`
+	MaxDirtyBytes       uint64  `json:"maxDirtyBytes,omitempty"`
 
 	Compaction      int     `json:"compaction,omitempty"` // 0 disable 1 allow 2 force
 	LevelMaxSegs    int     `json:"levelMaxSegs,omitempty"`
